@@ -48,6 +48,7 @@ CommonSupported(d) ==
   /\ AllFieldsSat(d, LAMBDA decl, j, f :
        /\ f.kind # "checksum_start"
        /\ (f.kind \in {"scalar", "reserved", "fixed", "size", "count", "elementsize"} => f.width \in 1..64)
+       /\ (f.kind = "array" /\ f.type = "" => f.width \in 1..64)       \* scalar elements are scalars: at most 64 bits
        /\ (f.kind \in {"array", "payload", "body"} => ExtentBefore(decl, j, f))
        /\ (IsPayloadField(f) /\ ~HasSizeField(decl, TargetName(f)) => TailOctets(d, decl, j) >= 0)
        /\ (f.kind = "array" => ElemStaticOctets(d, f) \notin {0, -2})
